@@ -629,6 +629,26 @@ def run_fill(model, sc: Scenario, ctx=None):
                 return BoundLib("identity_method", self)        # the zero test below is on magnitudes anyway
             raise ev.err(f"attribute {name} of a block of columns", node, mod)
 
+        def sym_subscript(self, ev, idx, n, mod):
+            if is_sym(idx) and idx.is_Integer:
+                out = ColsMat(self.names, self.vals)        # ONE row of the block (one volume): a test on it says nothing about the other volumes
+                out.one_row = int(idx)
+                out.is_bool = getattr(self, "is_bool", False)
+                return out
+            raise ev.err("subscript of a block of columns that is not one row", n, mod)
+
+        def sym_iter(self, ev, n, mod):
+            if getattr(self, "is_bool", False) and getattr(self, "one_row", None) is not None:
+                # per column: does it vanish at that one volume?  True for the columns that vanish everywhere and - in the worst case - for those
+                # that vanish at some volumes only
+                sc.bad_vanish_tests.append(f"zero test on row {self.one_row} of the table only")
+                flags = []
+                for v in self.vals:
+                    names_ = {str(s_) for s_ in sp.sympify(v).free_symbols}
+                    flags.append(bool(names_) and names_ <= (sc.zero | sc.zero_some))
+                return flags
+            raise ev.err("iteration over a block of columns", n, mod)
+
         def sym_compare(self, ev, op, other, flipped, n, mod):
             # block <= atol / block < atol (or atol >= block): the elementwise zero test with the caller's tolerance
             if isinstance(op, (ast.LtE, ast.Lt)) and not flipped or isinstance(op, (ast.GtE, ast.Gt)) and flipped:
@@ -676,6 +696,8 @@ def run_fill(model, sc: Scenario, ctx=None):
         if isinstance(m, ColsMat) and is_sym(a[1]) and a[1] == 0:
             out = ColsMat(m.names, m.vals)
             out.is_bool = True
+            if getattr(m, "one_row", None) is not None:
+                out.one_row = m.one_row
             return out
         if is_sym(m):
             names = {str(s_) for s_ in m.free_symbols}
